@@ -398,7 +398,7 @@ func genRequest(t *rapid.T, c *Case) {
 		c.Origin = "*"
 	}
 	if c.Method == "OPTIONS" && rapid.IntRange(0, 3).Draw(t, "pre") != 0 {
-		c.ACRM = rapid.SampledFrom([]string{"PUT", "GET", "DELETE"}).Draw(t, "acrm")
+		c.ACRM = rapid.SampledFrom([]string{"PUT", "GET", "DELETE", "PATCH", "PROPFIND", "patch", "QUERY"}).Draw(t, "acrm")
 		c.ACRH = rapid.SampledFrom([]string{"", "X-Custom", "content-type, x-a"}).Draw(t, "acrh")
 		c.ACRPN = rapid.SampledFrom([]string{"", "true", "false"}).Draw(t, "acrpn")
 	}
